@@ -3,7 +3,7 @@ import hashlib, hmac as hm
 from harness.common import Case, hx, unhx, Fields, run_driver, MachineryFault
 from harness import gen as G
 
-KINDS = 'ms'
+KINDS = 'gms'
 STATEFUL = True
 RULE = ('random 12..24-word mnemonics and random extended private keys (xprv/tprv), paths of depth 0..8 with indices across 0..2^31-1 hardened and '
         'not, sequences of 1..5 path changes on one wallet object, networks mainnet/testnet/regtest: after construction and after every path change '
@@ -83,6 +83,12 @@ def cases(ctx):
             first = rpath(rng)
             yield Case(f'hd_new {name} {net} {root} {pline(first)}', 'ms', nontrivial=True, tag='new-x',
                        spec=lambda ans, root=root, first=first: (f's:bip32 {root} {pline(first)}', ans))
+            # the translated wrapper (interpreted; an EC multiplication per normal step): construction, a few path changes, hand-over
+            if (not ctx.thorough) or rng.random() < 0.05:
+                ps = [[i for i in first if True] or [0]] + [rpath(rng)[:2] or [1] for _ in range(rng.choice([0, 1, 2]))]
+                ctx.count('gen-wrapper')
+                yield Case(f'hd_run {1 if net == "mainnet" else 0} {net}:{hx(wif_pfx(net))} {hx(x.encode())} ' +
+                           ' '.join([str(len(ps))] + [pline(p_) for p_ in ps]), 'g', nontrivial=True, tag='gen-wrapper')
         nch = rng.choice([1, 2, 3, 5])
         prev = None
         for k in range(nch):
@@ -161,6 +167,12 @@ def impl(op, a, ctx):
         else:
             w = HDWallet(xprivate_key=src, path=pstr(path))
         WALLETS[name] = (w, net)
+        return 'ok ' + hx(w.get_private_key().to_bytes())
+    if op == 'hd_run':
+        mainnet = F.bool(); net = F.next().split(':')[0]; setup(net); x = F.bytes().decode()
+        ps = [parse_path(F) for _ in range(F.nat())]
+        w = HDWallet(xprivate_key=x, path=pstr(ps[0]))
+        for p_ in ps[1:]: w.from_path(pstr(p_))
         return 'ok ' + hx(w.get_private_key().to_bytes())
     if op == 'hd_path':
         name = F.next(); net = F.next(); setup(net); path = parse_path(F)
